@@ -454,7 +454,7 @@ def run(tier: str, seed: int) -> Result:
     for i in range(0, len(bs), 30):
         work.append(('e2', bs[i:i + 30]))
         work.append(('serial', bs[i:i + 30]))
-    e3b = [b for b in bs if b.spec.n <= (2 if tier == 'quick' else 3)]
+    e3b = [b for b in bs if b.spec.n <= (2 if tier == 'quick' else 3) or 'TFN' in b.spec.types]
     e3c = list(F.fam_e3(e3b, workers=(1, 2) if tier == 'quick' else (1, 2, None), liveness=False))
     for i in range(0, len(e3c), 10):
         work.append(('e3', e3c[i:i + 10]))
